@@ -1,7 +1,7 @@
 """C01 — evaluation matches the reference semantics: decided clause = primitive-operator table agreement (R11a)."""
 from . import e11
 
-CRATES = {"gluon_vm", "gluon_check", "gluon_base"}
+CRATES = {"gluon_vm", "gluon_check", "gluon_base", "gluon_parser"}
 
 
 def run(fb, rep, tier, cfg):
@@ -11,7 +11,11 @@ def run(fb, rep, tier, cfg):
         "Compiler::compile_primitive selects the Instruction whose arm in ExecuteContext::execute_ applies the checked Rust "
         "operation on the type the name denotes (i64/u8 checked_{add,sub,mul,div} with None -> Error::Message, f64 IEEE ops, "
         "Lt/Eq on the named operand type), and `&&`/`||` compile their right operand behind a conditional jump. Everything else "
-        "in C01 (closures, patterns, records, implicits) is not decided.")
+        "in C01 (closures, patterns, records, implicits) is not decided. E13b (shared with C08; parser/src/infix.rs is an anchor of C01): the "
+        "built-in fixity table used for `#Type op`, `&&` and `||` agrees with std's #[infix] declarations of the same operators and "
+        "orders || below && below the comparisons, so unparenthesised source denotes the documented tree.")
     rep.assumptions += ["the lowering of `match str` to sequential `str == literal` tests is read from MIR",
                         "Char values are represented as Int in the VM (Char comparisons map to the Int instructions)"]
     e11.r11a(fb, rep)
+    from . import c08
+    c08.e13b(fb, rep)
